@@ -16,6 +16,18 @@ func VerifC02TSO() {
 	start := zzverif.U64("start")
 	zzverif.Assume(start < 1<<62)
 	t.Init(start)
+	// a node that has just become leader: its counter was moved to the lock's timestamp (any
+	// value, above or below what it had) before the first write is let in
+	floor := start
+	if zzverif.Param("leaderstart", 0) == 1 {
+		v := zzverif.U64("leaderStartRevision")
+		zzverif.Assume(v < 1<<62)
+		t.Commit(v)
+		if v > floor {
+			floor = v
+			zzverif.Cover("counter-moved-forward")
+		}
+	}
 	n := zzverif.Param("dealers", 2)
 	revs := make([]uint64, n)
 	var wg sync.WaitGroup
@@ -39,7 +51,7 @@ func VerifC02TSO() {
 	wg.Wait()
 	zzverif.StopExploring()
 	for i := 0; i < n; i++ {
-		zzverif.Assert(revs[i] > start, "dealt revision above the start value")
+		zzverif.Assert(revs[i] > floor, "dealt revision above the start value and above the revision the node started leading at")
 		for j := i + 1; j < n; j++ {
 			zzverif.Assert(revs[i] != revs[j], "no two attempts receive the same revision")
 		}
